@@ -598,9 +598,11 @@ def apalache_nonce():
                    ("IndInv => Safety", ["--init=IndInit", "--inv=Safety", "--length=0"])]
     t0 = _t.time()
     done = 0
+    env = dict(os.environ)
+    env["JVM_ARGS"] = (env.get("JVM_ARGS", "") + f" -Djava.io.tmpdir={out}").strip()     # scratch files under work/, not /tmp
     for nm, a in obligations:
         p = subprocess.run(["timeout", "900", "apalache-mc", "check", f"--out-dir={out}", "--cinit=ConstInit"] + a +
-                           [os.path.join(SPEC, "NonceInd.tla")], capture_output=True, text=True, cwd=SPEC)
+                           [os.path.join(SPEC, "NonceInd.tla")], capture_output=True, text=True, cwd=SPEC, env=env)
         if "EXITCODE: OK" not in p.stdout:
             raise ToolError(f"Apalache could not discharge '{nm}' of NonceInd.tla:\n" + p.stdout[-1500:])
         done += 1
